@@ -555,12 +555,22 @@ pub fn make_case(ctx: &ShardCtx, i: u64) -> Case {
     let mut r = Rng::sub(seed, "plan");
     let kind_roll = r.below(10);
     let (tsg, needed, kind): (String, Vec<(String, &'static str)>, &str) = match kind_roll {
-        2 if r.chance(1, 2) => (
+        2 if r.chance(1, 2) => {
             // echoes exactly what the tool hands to the library: the global's text and the
-            // extent and text of the whole source
-            "global g_path\n\n(module) @m\n{\n  node n\n  attr (n) g = g_path, text = (source-text @m), er = (end-row @m), ec = (end-column @m)\n}\n".to_string(),
-            vec![("g_path".to_string(), "str")],
-            "echo",
+            // extent and text of the whole source; the global's name is any DSL identifier
+            let name = *r.pick(&["g_path", "g_path", "gr\u{f6}\u{df}e", "\u{540d}\u{524d}", "g-path_2"]);
+            (
+                format!("global {}\n\n(module) @m\n{{\n  node n\n  attr (n) g = {}, text = (source-text @m), er = (end-row @m), ec = (end-column @m)\n}}\n", name, name),
+                vec![(name.to_string(), "str")],
+                "echo",
+            )
+        }
+        4 if r.chance(1, 8) => (
+            // succeeds lazily, fails strictly (a scoped variable read before the stanza that
+            // defines it): the selected mode must be the one that runs, whatever the input size
+            "(module) @m\n{\n  node n\n  attr (n) v = @m.v\n}\n\n(module) @m\n{\n  let @m.v = 1\n}\n".to_string(),
+            vec![],
+            "mode-sensitive",
         ),
         3 if r.chance(1, 3) => (
             // a file without any stanza: execution still has to check the declared globals
@@ -587,6 +597,11 @@ pub fn make_case(ctx: &ShardCtx, i: u64) -> Case {
         // exactly 256 or 512 syntax errors (exit statuses are taken modulo 256)
         source = "x = = 1\n".repeat(*r.pick(&[256usize, 512]));
     }
+    if kind == "mode-sensitive" {
+        // small, large and very large sources
+        let bytes = *r.pick(&[60usize, 70_000, 300_000, 1_200_000]);
+        source = "x = 1\n".repeat(bytes / 6);
+    }
     if r.chance(1, 4) {
         // a source file whose last line is not newline-terminated
         while source.ends_with('\n') {
@@ -606,7 +621,9 @@ pub fn make_case(ctx: &ShardCtx, i: u64) -> Case {
         }
     }
     if r.chance(1, 4) {
-        globals.push(("extra_unused".into(), r.pick(GLOBAL_VALUES).to_string()));
+        // a global the file does not declare: the library ignores it, whatever its name
+        let name = *r.pick(&["extra_unused", "extra_unused", "build.id", "gr\u{f6}\u{df}e_extra", "a-b", "x y", "1st", "\u{3c0}"]);
+        globals.push((name.into(), r.pick(GLOBAL_VALUES).to_string()));
     }
     let fault = match r.below(20) {
         0..=7 => Fault::None,
@@ -693,7 +710,10 @@ fn minimise(c: &Case, f: Found, tag: &str) -> (Case, Found) {
             2 => cand.allow_parse_errors = false,
             3 => cand.lazy = false,
             4 => cand.output_preexisting = None,
-            _ => cand.globals.retain(|g| g.0 != "extra_unused"),
+            _ => {
+                let tsg = cand.tsg.clone();
+                cand.globals.retain(|g| tsg.contains(&format!("global {}", g.0)))
+            }
         }
         try_case(cand, &mut best, &mut bestf);
     }
